@@ -307,4 +307,5 @@ def cases(tier, seed):
             yield {"kind": "boundary", "line": ln, "seed": ln, "opts": o}
     whats = ["missing-target", "line-too-large", "two-on-err", "two-on-brk"]
     for i in range(n // 8):
-        yield {"kind": "refuse", "what": whats[i % 4], "seed": seed * 69621 + i, "opts": OPTS[i % 2]}
+        # (i // 4: every kind of refusal under every option set - what must be refused does not depend on the options)
+        yield {"kind": "refuse", "what": whats[i % 4], "seed": seed * 69621 + i, "opts": OPTS[(i // 4) % len(OPTS)]}
